@@ -54,6 +54,11 @@ pub fn check_bfs<D: Order + OutNeighbors + Clone>(g: &D, name: &str, m: &UModel,
     ensure!(seq_l == seq, "Bfs<{name}>: sources passed through `filter` give {seq_l:?}, passed directly {seq:?}");
     let items_l: Vec<(usize, usize)> = BfsDist::new(g, lazy()).collect();
     ensure!(items_l == items, "BfsDist<{name}>: sources passed through `filter` give {items_l:?}, passed directly {items:?}");
+    let h = gen::hint_pick(sources.len(), n + m.size());
+    let seq_h: Vec<usize> = Bfs::new(g, gen::hinted(sources.to_vec(), h)).collect();
+    ensure!(seq_h == seq, "Bfs<{name}>: sources from an iterator with size_hint {h:?} give {seq_h:?}, passed directly {seq:?}");
+    let items_h: Vec<(usize, usize)> = BfsDist::new(g, gen::hinted(sources.to_vec(), h)).collect();
+    ensure!(items_h == items, "BfsDist<{name}>: sources from an iterator with size_hint {h:?} give {items_h:?}, passed directly {items:?}");
     let dist_l = BfsDist::new(g, lazy()).distances();
     let dist = BfsDist::new(g, sources.iter().copied()).distances();
     ensure!(dist_l == dist, "BfsDist<{name}>::distances(): sources passed through `filter` give {dist_l:?}, passed directly {dist:?}");
@@ -70,6 +75,33 @@ pub fn check_bfs<D: Order + OutNeighbors + Clone>(g: &D, name: &str, m: &UModel,
                 "BfsDist<{name}>::distances()[{v}] = {} but the hop distance from {sources:?} is {d}",
                 if dist[v] == usize::MAX { "usize::MAX".into() } else { dist[v].to_string() }
             ),
+        }
+    }
+    // distances() on an instance that was already stepped: a vertex may only
+    // be reported unreached if it is unreachable or was yielded before the call
+    if n <= 40 {
+        let len = items.len();
+        let mut ks = vec![1, 2, len / 2, len.saturating_sub(1), len];
+        ks.retain(|&k| k >= 1 && k <= len);
+        ks.sort_unstable();
+        ks.dedup();
+        for k in ks {
+            let mut it = BfsDist::new(g, sources.iter().copied());
+            let yielded: BTreeSet<usize> = it.by_ref().take(k).map(|(v, _)| v).collect();
+            let d = it.distances();
+            ensure!(d.len() == n, "BfsDist<{name}>: distances() after {k} next() calls has length {}", d.len());
+            for v in 0..n {
+                let ok = match hops.get(&v) {
+                    None => d[v] == usize::MAX,
+                    Some(&h) => d[v] == h || (d[v] == usize::MAX && yielded.contains(&v)),
+                };
+                ensure!(
+                    ok,
+                    "BfsDist<{name}>: distances() after {k} next() calls reports {} for vertex {v} (hop distance {:?}, yielded before the call: {yielded:?})",
+                    if d[v] == usize::MAX { "usize::MAX".to_string() } else { d[v].to_string() },
+                    hops.get(&v)
+                );
+            }
         }
     }
     Ok(())
@@ -124,7 +156,7 @@ impl Prop for C04 {
     type Case = Case;
     const ID: &'static str = "C04";
     const NUM: u64 = 4;
-    const RULE: &'static str = "random leg: digraphs on 0..order (order 1..16 quick / 1..60 thorough; uniform densities and 15 structured families) in all five representations with empty/single/multiple distinct sources; enum leg: every digraph of order <=3 (quick) / <=4 (thorough) times a fixed list of source lists. About one random case in 25 has a large order (17..140, weighted towards 63..66, 96, 127..130, 140; at most 700 arcs). The Bfs / BfsDist iterators are also driven through next()-then-count/last/fold/nth/collect and mid-iteration clones (order <= 40). Non-trivial = at least two distinct non-zero BFS levels and some vertex with in-arcs from two different levels; distinct = distinct serialised case.";
+    const RULE: &'static str = "random leg: digraphs on 0..order (order 1..16 quick / 1..60 thorough; uniform densities and 15 structured families) in all five representations with empty/single/multiple distinct sources; enum leg: every digraph of order <=3 (quick) / <=4 (thorough) times a fixed list of source lists. About one random case in 25 has a large order (17..140, weighted towards 63..66, 96, 127..130, 140; at most 700 arcs). The Bfs / BfsDist iterators are also driven through next()-then-count/last/fold/nth/collect and mid-iteration clones (order <= 40). Sources are also passed through `filter` and through an iterator reporting another honest size_hint shape; distances() is also called after 1, 2, len/2, len-1, len next() calls (a vertex may then be reported unreached only if unreachable or already yielded). Non-trivial = at least two distinct non-zero BFS levels and some vertex with in-arcs from two different levels; distinct = distinct serialised case.";
     const ASSUMPTIONS: &'static [&'static str] = &[
         "order within a level is free",
         "sources are distinct and in range",
